@@ -73,3 +73,30 @@ Theorem C13_more_probes_never_worse : forall p s rq rq' q o o',
   (length (so_full o) <= length (so_full o'))%nat /\ (so_cut o <= so_cut o')%nat.
 Proof. exact ivf_probe_monotone. Qed.
 Print Assumptions C13_more_probes_never_worse.
+
+(** every added vector goes into exactly one cluster — the list of the FIRST centroid at minimal
+    distance from the (preprocessed) vector: none is strictly nearer, every earlier one is strictly farther *)
+From Comet Require Import Proofs.NearestP.
+Theorem C13_add_goes_to_one_list : forall p s id v s',
+  p_kind p = KIVF -> memz id (st_deleted s) = false -> vadd_op p s id v = (s', E_OK) ->
+  exists w, preprocess (p_metric p) v = Some w /\
+    st_lists s' = app_nth (Z.to_nat (nearest (p_metric p) w (st_centroids s)))
+                          {| e_id := id; e_vec := w; e_code := [] |} (st_lists s).
+Proof.
+  intros p s id v s' Hk Hd H. unfold vadd_op in H. rewrite Hk, Hd in H.
+  destruct (negb (st_trained s)); [inversion H|].
+  destruct (negb (Z.of_nat (length v) =? p_dim p)); [inversion H|].
+  destruct (preprocess (p_metric p) v) as [w|]; [|inversion H].
+  inversion H; subst s'. exists w. split; reflexivity.
+Qed.
+Print Assumptions C13_add_goes_to_one_list.
+
+Theorem C13_nearest_is_first_argmin : forall m v cs,
+  cs <> [] -> Forall nn (map (dist m v) cs) ->
+  let ds := map (dist m v) cs in
+  let r := Z.to_nat (nearest m v cs) in
+  (r < length cs)%nat /\
+  (forall j, (j < length cs)%nat -> F32.ltb (nth j ds 0) (nth r ds 0) = false) /\
+  (forall j, (j < r)%nat -> F32.ltb (nth r ds 0) (nth j ds 0) = true).
+Proof. exact nearest_first_argmin. Qed.
+Print Assumptions C13_nearest_is_first_argmin.
